@@ -37,6 +37,8 @@ def run_e3(prop, tier, seed, workdir, versions, repo, jobs_per=4, part="all", ex
     env["PYTHONDONTWRITEBYTECODE"] = "1"
     env["PCV_REPO"] = repo
     env["PYTHONHASHSEED"] = "0"
+    env["PCV_WORKDIR"] = workdir
+    env["PCV_TIER"] = tier
 
     def one(ver):
         exe = config.interpreter(ver)
@@ -124,6 +126,18 @@ def decide(prop, tier, seed, repo, workdir, a, t0):
     e3 = {}
     if not a.no_e3 and pl.get("e3", True):
         e3 = run_e3(prop, tier, seed, workdir, pl.get("e3_versions", config.VERSIONS), repo, jobs_per=pl.get("e3_jobs", 4))
+    from . import custom
+    if not a.no_e3 and prop in custom.CUSTOM:
+        try:
+            extra = custom.CUSTOM[prop](tier, seed, workdir, repo)
+            for ver, res in extra.items():
+                tgt = e3.setdefault(ver, {"parts": {}})
+                tgt.setdefault("parts", {}).update(res.get("parts", {}))
+                if res.get("crash"):
+                    tgt["crash"] = res["crash"]
+        except Exception as e:
+            import traceback
+            checker_errors.append("custom step for %s crashed: %s %s" % (prop, e, traceback.format_exc()[-600:]))
     e3_fail = []
     for ver, res in sorted(e3.items()):
         if res.get("missing_interpreter"):
